@@ -197,6 +197,7 @@ let () =
          | None -> print_endline "UNDEF"
          | Some (LConsume q', x) -> line cfg ROk (int_of_nat q') 1 x
          | Some (LRet (r, q', adv), x) -> line cfg r (int_of_nat q') (if adv then 1 else 0) x)
+    | "guard" -> print_endline (if appends_guarded cfg d then "guarded" else "UNGUARDED")
     | "stepn" ->
         let q = next_int () in let n = next_int () in
         let bs = List.init n (fun _ -> n_of_int (next_int ())) in
